@@ -14,18 +14,21 @@ from .frame_common import BLOCK_UNIT
 def check_state_for_iface(rep, prog, rule):
     ix = prog.unit(BLOCK_UNIT)
     from .frame_common import state_lookup_name
+    from .frame_common import iface_list_name
+    LISTN = iface_list_name(prog)
     LOOKUP = state_lookup_name(prog)       # identified by its role (called from parseFrame, returns the record), not by its name
     fn = ix.functions[LOOKUP]
     srec = ix.parse_type('lltd_iface_state').rec
-    ctx_off, next_off = srec.field('iface_ctx')[1], srec.field('next')[1]
+    from .frame_common import record_field
+    ctx_off, next_off = record_field(srec, 'iface_ctx')[1], record_field(srec, 'next')[1]
 
     def setup(I, st):
         mk_obj(st, 'ext:ctx', 1, kind='ext', default='unknown')
         recs = mk_obj(st, 'RECS', srec.size, kind='heap', default='sym', heap=True, weak=True)
         recs.ptr_fields = {next_off: (ZERO, ('ptr', 'RECS', ZERO))}
-        g = mk_obj(st, 'g:g_iface_states', W, kind='global', default='unknown')
+        g = mk_obj(st, 'g:' + LISTN, W, kind='global', default='unknown')
         g.cells[((), 0)] = (W, ('pset', ('sym', 'g_iface_states@entry', 0, 0), (ZERO, ('ptr', 'RECS', ZERO))))
-        st.tags['known_globals'] = ('g:g_iface_states',)
+        st.tags['known_globals'] = ('g:' + LISTN,)
         return [Val(ix.parse_type('void *'), ('ptr', 'ext:ctx', ZERO))]
     from ..engine import Engine
     E = Engine(prog, port=PortModel(), entry_name=LOOKUP)
@@ -73,7 +76,7 @@ def check_state_for_iface(rep, prog, rule):
             c = st.canon(mem.load_scalar(st, o, C(ctx_off), ix.parse_type('void *')))
             rep.check(c == ('ptr', 'ext:ctx', ZERO), rule, 'state_for_iface|ctx', 'fresh record is keyed by %s, not by the caller\'s context' % short(c),
                       node=fn, function=LOOKUP)
-            g = st.canon(mem.load_scalar(st, st.objs['g:g_iface_states'], ZERO, ix.parse_type('void *')))
+            g = st.canon(mem.load_scalar(st, st.objs['g:' + LISTN], ZERO, ix.parse_type('void *')))
             rep.check(g == t, rule, 'state_for_iface|link', 'fresh record is not linked into the list head', node=fn, function=LOOKUP)
         else:
             rep.fail(rule, 'state_for_iface|ret', '%s returns %s' % (LOOKUP, short(t)), node=fn, function=LOOKUP)
